@@ -126,6 +126,7 @@ def slash_labels(rng, t):
     <float>/<float><letters>, 1/2/3, 1e3/2/ (IQ-TREE writes three-valued branch labels such as 85.2/0.99/100): names, legal in
     the three formats; the branch above has no support"""
     k = 0
+    used = set(n.get("name") for n in preorder(t) if n.get("name"))
     for x in preorder(t):
         for e, c in kids(x):
             if not kids(c) or rng.random() < 0.5:
@@ -136,6 +137,11 @@ def slash_labels(rng, t):
             c["name"] = rng.choice(["%s/%s/%d" % (a, b, 100 - k), "%s/%s/" % (a, b), "%s/%s/%d/%d" % (a, b, k, k),
                                     "%s/%sx%d" % (a, b, k), "%s/%s_%d" % (a, b, k), "%s/%s/n%d" % (a, b, k),
                                     "%s/%s-%d" % (a, b, k), "%s/%se" % (a, b), "%s/%s%%" % (a, b)])
+            # inner names stay distinct within a tree (Tree.Rename, which the Nexus reader applies for a translate
+            # table, refuses a tree with two nodes of one name: outside what this stream is about)
+            if c["name"] in used:
+                c["name"] = "%s/%s/d%d" % (a, b, k)
+            used.add(c["name"])
             e["sup"] = None
             e["pv"] = None
     return t
@@ -162,6 +168,7 @@ def px_born(rng, t, numbers="dyadic"):
     only, neither"""
     g = Gen(rng)
     k = 0
+    used = set(n.get("name") for n in preorder(t) if n.get("name"))
     for x in preorder(t):
         for e, c in kids(x):
             if not kids(c):
@@ -172,6 +179,11 @@ def px_born(rng, t, numbers="dyadic"):
                 return full_double(rng, unit=True) if numbers == "full" and rng.random() < 0.5 else \
                     rng.choice([g.dyadic(64, 64), Fraction(rng.randint(0, 100)), Fraction(1), Fraction(0)])
             name = "%s_%d" % (rng.choice(PX_NAMES), k)
+            # node names stay distinct within a tree (tips included): Tree.Rename, applied for a Nexus translate
+            # table, refuses a tree with two nodes of one name
+            while name in used:
+                name += "i"
+            used.add(name)
             if r < 0.45:
                 c["name"], e["sup"] = name, sup()
                 if rng.random() < 0.7 and e["len"] is None:
